@@ -190,8 +190,8 @@ func checkArrivalOrderIndependence(c *core.Ctx, rule string, only ...string) int
 			var feed []eval.Value
 			for _, i := range order {
 				p := absValue(pt, "p", eval.K(0)).(*eval.StructVal)
-				p.F["ref"] = bytesVal("ACGT")
-				p.F["query"] = bytesVal(strings.Repeat("ACGT"[i%4:i%4+1], 4))
+				p.F["ref"] = bytesVal("AC" + strings.Repeat("-", i) + "GT") // each pair has its own gapped reference row
+				p.F["query"] = bytesVal(strings.Repeat("ACGT"[i%4:i%4+1], 4+i))
 				p.F["refname"] = eval.S("REF")
 				p.F["queryname"] = eval.S(fmt.Sprintf("q%d", i))
 				p.F["idx"] = eval.K(int64(i))
